@@ -493,6 +493,43 @@ theorem skipCRLF_tie (b : Buf) (i : Nat) :
       rw [e0]
       simp [hd, errU32, Err.toNat]
 
+/-! ### `Request()` / `Method()` / `PTokParam.Empty()`: paths of field selections and calls of translated methods
+
+`PFLine.Request` is the site of defect F22 (a status line with code 000 was reported as a request): the repaired source
+text is what is translated here, and it is proved to be the model's `request`. -/
+
+private theorem u16_beq0 (n : Nat) (h : n < 65536) : (UInt16.ofNat n == 0) = (n == 0) := by
+  by_cases h0 : n = 0
+  · subst h0; rfl
+  · have : UInt16.ofNat n ≠ 0 := by
+      intro e; apply h0
+      have := congrArg UInt16.toNat e
+      simpa [UInt16.toNat_ofNat', Nat.mod_eq_of_lt h] using this
+    rw [beq_false_of_ne this, beq_false_of_ne h0]
+
+-- TIE: PFLine.Request
+theorem flineRequest_tie (pl : PFLine) (hs : pl.status < 65536) (hl : pl.statusCode.len < 65536) :
+    Gen.F.PFLine_Request (UInt16.ofNat pl.status) (UInt16.ofNat pl.statusCode.len) = pl.request := by
+  unfold Gen.F.PFLine_Request Gen.F.PField_Empty PFLine.request
+  rw [u16_beq0 _ hs, u16_beq0 _ hl]
+-- TIE: PTokParam.Empty
+theorem tokparamEmpty_tie (p : PTokParam) (hl : p.all.len < 65536) :
+    Gen.F.PTokParam_Empty (UInt16.ofNat p.all.len) = p.isEmpty := by
+  unfold Gen.F.PTokParam_Empty Gen.F.PField_Empty PTokParam.isEmpty PField.isEmpty
+  rw [u16_beq0 _ hl]
+-- TIE: PSIPMsg.Request
+theorem msgRequest_tie (m : PSIPMsg) (hs : m.fl.status < 65536) (hl : m.fl.statusCode.len < 65536) :
+    Gen.F.PSIPMsg_Request (UInt16.ofNat m.fl.status) (UInt16.ofNat m.fl.statusCode.len) = m.request := by
+  unfold Gen.F.PSIPMsg_Request PSIPMsg.request
+  exact flineRequest_tie m.fl hs hl
+-- TIE: PSIPMsg.Method
+theorem msgMethod_tie (m : PSIPMsg) (hs : m.fl.status < 65536) (hl : m.fl.statusCode.len < 65536) :
+    Gen.F.PSIPMsg_Method (UInt8.ofNat m.pv.cseq.methodNo) (UInt8.ofNat m.fl.methodNo) (UInt16.ofNat m.fl.status)
+      (UInt16.ofNat m.fl.statusCode.len) = UInt8.ofNat m.method := by
+  unfold Gen.F.PSIPMsg_Method PSIPMsg.method
+  rw [msgRequest_tie m hs hl]
+  by_cases h : m.request = true <;> simp [h]
+
 /-! ### the capacity accessors `VNo / PNo / HNo / More` (the caller's array enters as its length) -/
 
 private theorem gt_nat (a b : Nat) : decide ((Int.ofNat a : Int) > Int.ofNat b) = decide (a > b) := by
